@@ -31,6 +31,9 @@ func main() {
 	if id == "C09-child" && len(os.Args) >= 4 {
 		os.Exit(c09Child(os.Args[3]))
 	}
+	if id == "basm-run" && len(os.Args) >= 3 {
+		os.Exit(basmRunCmd(os.Args[2]))
+	}
 	if id == "C17-child" && len(os.Args) >= 4 {
 		os.Exit(c17Child(os.Args[3]))
 	}
